@@ -175,6 +175,15 @@ def handle (cmd : String) (j : J) : Except String J :=
                    ("scan", J.arr ((selectFeaturesX db q oa).map xrecJ)),
                    ("scan_num", J.num (selectFeaturesX db { q with start := none, stop := none } oa).length)])
     pure (J.arr out)
+  | "pchildren" => do
+    -- get_feature_children of GffAnnotationDb / BasicAnnotationDb: rows of every table in table_names order, with parent_id
+    let rows ← (← j.get "rows").toListOf fun r => do
+      pure ({ x := ← parseXRec r, parent := ← optStr (getOpt r "parent") } : PRec)
+    let ps ← (← j.get "probes").toList
+    let out ← ps.mapM fun p => do
+      pure (exceptJ (fun (l : List PRec) => J.arr (l.map fun r => xrecJ r.x))
+        (mixinChildren rows (← (← p.get "name").toStr) (← optStr (getOpt p "biotype"))))
+    pure (J.arr out)
   | "xjson" => do
     -- deserialise_object(db.to_json()) of an in-memory db, rows without location included
     pure (xdbJ (jsonRoundTripX (← parseXDb (← j.get "db"))))
